@@ -1,0 +1,18 @@
+//! Verification hooks (compiled only with `--cfg maidsafe_safe_network_verif`).
+//! Lets the external correspondence harness in /verif build a `Client` around a harness-driven `Network`.
+
+use crate::Client;
+use ant_evm::EvmNetwork;
+use ant_networking::Network;
+use std::sync::Arc;
+
+impl Client {
+    /// A client over an already constructed network handle (no bootstrap, no event channel).
+    pub fn verif_new(network: Network, evm_network: EvmNetwork) -> Self {
+        Self {
+            network,
+            client_event_sender: Arc::new(None),
+            evm_network,
+        }
+    }
+}
